@@ -30,6 +30,7 @@ type histParams struct {
 	Adversarial  bool `json:"adversarial"`   // C02: named tree + raw header/block events
 	StartUnknown bool `json:"start_unknown"` // start hash is a block the node has not seen at boot (pre-start mode)
 	ExtraDepth int  `json:"extra_depth"`
+	StaleDup bool `json:"stale_dup,omitempty"` // duph may also repeat the announcement of a branch the peer has abandoned since
 	ContractsOnly bool `json:"contracts_only,omitempty"` // contract subscription on, no push data subscribed
 	BlockFetch bool `json:"block_fetch,omitempty"` // C13: apply the block download oracle after every event
 	FailAt int      `json:"fail_at,omitempty"` // the FailAt-th storage operation returns an error
@@ -419,6 +420,7 @@ func vrtGoEnv(label string, f func()) interface{} { return goEnv(label, f) }
 // runHist executes hist from the initial state of the scenario.
 func runHist(p histParams, hist []string, withDrain bool) *histRun {
 	w := NewWorld(p.Cfg)
+	w.staleDup = p.StaleDup
 	w.Store.FailAt = p.FailAt
 	r := &histRun{w: w}
 	w.onCallback = func(h int, e cbEvent) {
@@ -809,8 +811,8 @@ func (w *World) nthLastHeaders(k int) []byte {
 		m := w.P.sentLog[i]
 		if len(m) > 25 && strings.HasPrefix(string(m[4:16]), "headers") {
 			if k == 0 {
-				// peer assumption: a Bitcoin node does not announce again a branch it has abandoned; only
-				// announcements whose blocks are all still on its best chain can show up a second time
+				// any earlier announcement can show up a second time ("duplications"), also one for a branch the
+				// peer has abandoned since; the peer still serves those blocks and answers polls with its best chain
 				msg, _, err := wire.ReadMessage(bytes.NewReader(m), wire.ProtocolVersion, netMagic)
 				hm, ok := msg.(*wire.MsgHeaders)
 				if err != nil || !ok || len(hm.Headers) == 0 {
@@ -818,8 +820,8 @@ func (w *World) nthLastHeaders(k int) []byte {
 				}
 				for _, h := range hm.Headers {
 					n, known := w.Tree.byHash[*h.BlockHash()]
-					if !known || !w.onBest(n) {
-						return nil
+					if !known || (!w.staleDup && !w.onBest(n)) {
+						return nil // (scenarios whose oracle reads announcements as the peer's current view only repeat valid ones)
 					}
 				}
 				return m
